@@ -14,6 +14,7 @@ PROP = {
         {"name": "codecs", "quick": 3500000, "thorough": 40000000, "maxlen": 80},
         {"name": "codecs_long", "quick": 150000, "thorough": 1500000, "maxlen": 32},
     ],
+    "uchar": ["codecs", "fixed"],
     "fuzz": [{"name": "codecs", "secs": 60, "maxlen": 80}],
 }
 
